@@ -90,7 +90,7 @@ func checkC06(c C06Case, env *Env) *Violation {
 			if o.Name.Off == o.Name.End {
 				continue
 			}
-			if dcName(o.Name.Text) || (o.Decl != nil && o.Decl.Kind == reflua.DSelf) {
+			if dcOcc(o) || (o.Decl != nil && o.Decl.Kind == reflua.DSelf) {
 				env.Stats.mu.Lock()
 				env.Stats.DontCare++
 				env.Stats.mu.Unlock()
